@@ -13,7 +13,7 @@ echo "== patch"; cat $DST/patch.diff | head -60
 echo "== demo with the change (expect FAIL / exit 1)"
 (cd $WT && PYTHONPATH=$WT/src timeout 600 /venv/bin/python $DEMO 2>&1 | tail -5; echo "exit=${PIPESTATUS[0]}") | tee $DST/demo_with_change.log
 echo "== demo without the change (expect PASS / exit 0)"
-(cd $WT && git stash -q && PYTHONPATH=$WT/src timeout 600 /venv/bin/python $DEMO 2>&1 | tail -3; echo "exit=${PIPESTATUS[0]}"; git stash pop -q) | tee $DST/demo_without_change.log
+(cd $WT && git checkout -- src && PYTHONPATH=$WT/src timeout 600 /venv/bin/python $DEMO 2>&1 | tail -3; echo "exit=${PIPESTATUS[0]}"; git apply $DST/patch.diff) | tee $DST/demo_without_change.log
 echo "== our checks with the change applied to /repo"
 git -C /repo apply $DST/patch.diff || { echo "PATCH DOES NOT APPLY"; exit 2; }
 OUT=$(mktemp -d /var/tmp/seeded-XXXX)
